@@ -78,3 +78,26 @@ func FuzzParse(f *testing.F) {
 		fuzzFail(t, o)
 	})
 }
+
+// FuzzDiff: arbitrary source strings over a fixed environment; whatever compiles
+// must behave alike on the four execution paths (C03's source-strings check).
+func FuzzDiff(f *testing.F) {
+	for _, s := range seedPrograms {
+		f.Add(s)
+	}
+	for _, s := range []string{"a + x", "if(b, a, x)", "b && a > x || !b", "xs[0] + xs[1]", `mp["k"] + get(mp, "z", 1)`, "o.a + len(o.b)", "len(xs) > 1 ? max(xs) : min(xs)",
+		"string(a) + s", "[a, x, 1].len()", `["k": a, s: x]["k"]`, "{p: a, q: [x]}.q[0]", "union(xs, [a])", "get(xs, 5, 0)", "t > t", "string(o)", "string(mp)", "a / 0", "xs[7]", "a % x", "-a ^ 2",
+		"hsub(a, x)", "lz_if(b, a, x)", "tr(1, a) + tr(2, x)", "lz_and(b, boom(1)) || b"} {
+		f.Add(s)
+	}
+	f.Fuzz(func(t *testing.T, src string) {
+		if len(src) > 1024 {
+			return
+		}
+		o := checkSrcDiff(&SrcCase{Src: src})
+		if o.Err != nil {
+			lastFail = &failure{replayFile{Property: "C03", Check: "source-strings", Error: o.Err.Error(), Case: []byte(`{"src":` + jsonString(src) + `}`)}}
+		}
+		fuzzFail(t, o)
+	})
+}
